@@ -118,8 +118,18 @@ func (r *resourceLock) getRecord() (err error) {
 func (r *resourceLock) getTso() (err error) {
 	ctx, cancel := r.genContext(context.Background())
 	defer cancel()
-	r.tso, err = r.store.GetTimestampOracle(ctx)
-	return err
+	return r.refreshTso(ctx)
+}
+
+// refreshTso keeps the previous timestamp if the oracle can not be reached: the leader callback,
+// which runs concurrently with the renewal, takes its initial revision from it and must never see 0
+func (r *resourceLock) refreshTso(ctx context.Context) error {
+	tso, err := r.store.GetTimestampOracle(ctx)
+	if err != nil {
+		return err
+	}
+	r.tso = tso
+	return nil
 }
 
 // Create implements resourcelock.Interface
@@ -137,8 +147,7 @@ func (r *resourceLock) Create(ler resourcelock.LeaderElectionRecord) error {
 		return err
 	}
 	r.lastVal = lerBytes
-	r.tso, err = r.store.GetTimestampOracle(context.Background())
-	return err
+	return r.refreshTso(context.Background())
 }
 
 // Update implements resourcelock.Interface
@@ -162,8 +171,7 @@ func (r *resourceLock) Update(ler resourcelock.LeaderElectionRecord) error {
 		return err
 	}
 
-	r.tso, err = r.store.GetTimestampOracle(context.Background())
-	return err
+	return r.refreshTso(context.Background())
 }
 
 // RecordEvent implements resourcelock.Interface
